@@ -756,11 +756,21 @@ func onlyMasked(v ssa.Value) bool {
 	return n > 0
 }
 
+// IndexConcrete / IndexAbstract record, per process, which index sites the abstract runs reached with a concrete
+// (singleton) index only, resp. at least once with an abstract one. A site reached only concretely on runs that cover
+// every loop iteration of its function is in range on all of them (an out-of-range concrete index is an error of the run).
+var (
+	IndexConcrete = map[*ssa.IndexAddr]bool{}
+	IndexAbstract = map[*ssa.IndexAddr]bool{}
+)
+
 func (it *Interp) indexAddr(f *frame, x *ssa.IndexAddr) AnyVal {
 	idx, ok := it.intOf(f, x.Index)
 	if !ok || !idx.IsConst() {
+		IndexAbstract[x] = true
 		return OpaqueV{"index by abstract value"}
 	}
+	IndexConcrete[x] = true
 	i := int(idx.Int64())
 	switch b := it.get(f, x.X).(type) {
 	case PtrV:
@@ -797,6 +807,13 @@ func (it *Interp) indexAddr(f *frame, x *ssa.IndexAddr) AnyVal {
 			it.Err = fmt.Errorf("index %d out of range (slice len %d) in %s", i, b.Len, f.fn.Name())
 			return OpaqueV{"oob"}
 		}
+		if o := it.St.Objs[b.Obj]; o.Kind == "agg" {
+			// a slice of an array of aggregates (table[first:first+8]): the element is the sub-object
+			if b.Off+i >= len(o.Kids) {
+				return OpaqueV{"index of aggregate out of modelled range"}
+			}
+			return PtrV{Obj: o.Kids[b.Off+i], Idx: -1}
+		}
 		return PtrV{Obj: b.Obj, Idx: b.Off + i}
 	}
 	return OpaqueV{"index of unmodelled base"}
@@ -816,6 +833,14 @@ func (it *Interp) slice(f *frame, x *ssa.Slice) AnyVal {
 	switch b := it.get(f, x.X).(type) {
 	case PtrV:
 		o := it.St.Objs[b.Obj]
+		if b.Idx == -1 && o.Kind == "agg" && len(o.Kids) > 0 {
+			lo, ok1 := bound(x.Low, 0)
+			hi, ok2 := bound(x.High, len(o.Kids))
+			if !ok1 || !ok2 || lo < 0 || hi > len(o.Kids) || lo > hi {
+				return OpaqueV{"slice bounds"}
+			}
+			return SliceV{Obj: b.Obj, Off: lo, Len: hi - lo}
+		}
 		if b.Idx != -1 || o.Kind != "arr" {
 			return OpaqueV{"slice of unmodelled base"}
 		}
